@@ -12,7 +12,9 @@
 // variable, a map or the result type of a conversion function of another type: every flowing signature
 // downstream is stale); renamed (the element type was renamed: the old signatures mention a type that no
 // longer exists); extra (the old sources had one more chain: the file declares functions nobody calls);
-// missing (the old sources lacked a chain); any of them with function declarations cut out of the file
+// missing (the old sources lacked a chain); hand-written-added (the new sources declare BY HAND, in a file sorting
+// before or after derived.gen.go, a function that the old sources let goderive generate: its call is an ordinary
+// call now, typed by the user's declaration); any of them with function declarations cut out of the file
 // (`old_drop`). The old sources are generated from the same SHAPE (calls, names, bindings) as the new
 // ones under other type choices, so the call texts are the same and only the types differ.
 //
@@ -87,6 +89,7 @@ type step struct {
 	twice  bool   // union / intersect / equal / compare: the flowing value is both arguments
 	fixed  string // a second argument whose declared type does NOT follow the flow ("" = follows)
 	alias  bool   // the result is copied into a second variable which the next step reads
+	mis    bool   // a plugin that is misapplied on purpose
 }
 
 type chain struct {
@@ -98,8 +101,10 @@ type chain struct {
 }
 
 type shape struct {
-	chains []chain
-	files  []string
+	chains   []chain
+	files    []string
+	hand     string // a function the user has written by hand under the name its call already has ("" = none)
+	handFile string // the file that declares it (a.go sorts before derived.gen.go, main.go after it)
 }
 
 // the type choices: per chain the start key/elem/value types, per fmap step the result element type
@@ -302,9 +307,37 @@ func parseTy(s string) ty {
 func instantiate(sh shape, ch choice) version {
 	in := &inst{named: map[string]bool{}}
 	blocks := map[string][]string{}
+	extra := map[string][]string{}
 	calls := map[string][]absCall{}
 	for _, c := range sh.chains {
 		in.decls, in.body, in.calls = nil, nil, nil
+		if c.start == "pair" {
+			// two different calls of one plugin in ONE statement on one line (only the first one in a version that
+			// has a single step): their source order is decided by the column
+			e1, e2 := ch.startElem[c.idx], ch.fmapRes[fmt.Sprintf("%d/pair", c.idx)]
+			var texts []string
+			for si, st := range c.steps {
+				e := e1
+				if si == 1 {
+					e = e2
+				}
+				call := mkCall(st.name, st.plugin, in.knownVar(slice(e)))
+				texts = append(texts, call.text)
+				collect(call, &in.calls)
+			}
+			var b strings.Builder
+			for _, d := range in.decls {
+				b.WriteString(d + "\n\n")
+			}
+			lhs := "_"
+			if len(texts) == 2 {
+				lhs = "_, _"
+			}
+			fmt.Fprintf(&b, "func chain%d() {\n\t%s = %s\n}\n\n", c.idx, lhs, strings.Join(texts, ", "))
+			blocks[c.file] = append(blocks[c.file], b.String())
+			calls[c.file] = append(calls[c.file], in.calls...)
+			continue
+		}
 		var cur ty
 		kind := c.start
 		if k, ok := ch.startKind[c.idx]; ok {
@@ -361,6 +394,27 @@ func instantiate(sh shape, ch choice) version {
 				}
 			}
 			call := mkCall(st.name, st.plugin, args...)
+			if sh.hand != "" && st.name == sh.hand {
+				// the function is the user's own: the call is an ordinary call whose type the user's declaration gives,
+				// nothing is generated for it (the calls nested in its arguments are derive calls as before)
+				ps := make([]string, len(args))
+				for i, a := range args {
+					t := a.known
+					if t == "" {
+						t = cur.String()
+					}
+					ps[i] = fmt.Sprintf("a%d %s", i, t)
+				}
+				extra[sh.handFile] = append(extra[sh.handFile], fmt.Sprintf("// %s is written by hand.\nfunc %s(%s) %s %s\n\n",
+					st.name, st.name, strings.Join(ps, ", "), next, zeroBody(next.String())))
+				call = expr{text: call.text, known: next.String(), sub: args}
+			}
+			bound := func(v string) expr {
+				if sh.hand != "" && st.name == sh.hand {
+					return expr{text: v, known: next.String()}
+				}
+				return expr{text: v, from: st.name}
+			}
 			switch st.bind {
 			case "nested":
 				flow = call
@@ -368,16 +422,16 @@ func instantiate(sh shape, ch choice) version {
 				v := in.fresh("g")
 				in.decls = append(in.decls, fmt.Sprintf("var %s = %s", v, call.text))
 				collect(call, &in.calls)
-				flow = expr{text: v, from: st.name}
+				flow = bound(v)
 			case "local":
 				v := in.fresh("v")
 				in.body = append(in.body, fmt.Sprintf("%s := %s", v, call.text), "_ = "+v)
 				collect(call, &in.calls)
-				flow = expr{text: v, from: st.name}
+				flow = bound(v)
 				if st.alias {
 					v2 := in.fresh("v")
 					in.body = append(in.body, fmt.Sprintf("%s := %s", v2, v), "_ = "+v2)
-					flow = expr{text: v2, from: st.name}
+					flow = bound(v2)
 				}
 			case "end":
 				in.body = append(in.body, "_ = "+call.text)
@@ -386,7 +440,7 @@ func instantiate(sh shape, ch choice) version {
 			}
 			cur = next
 		}
-		if flow.call != nil {
+		if flow.call != nil || (flow.known != "" && flow.sub != nil) {
 			// the chain ends in a nested call that nobody consumed
 			in.body = append(in.body, "_ = "+flow.text)
 			collect(flow, &in.calls)
@@ -417,6 +471,9 @@ func instantiate(sh shape, ch choice) version {
 			}
 		}
 		for _, blk := range blocks[file] {
+			b.WriteString(blk)
+		}
+		for _, blk := range extra[file] {
 			b.WriteString(blk)
 		}
 		v.Files[file] = b.String()
@@ -503,6 +560,26 @@ var helperRequesters = map[string][][2]string{
 	"Hash":     {{"Hash", "strings"}},
 }
 
+// two calls of one plugin, for two element types, in one statement on one line
+func (g *gen) pair(idx int, file string, ch *choice) chain {
+	c := chain{idx: idx, file: file, startPkg: true, start: "pair"}
+	plugin := g.pick([]string{"Hash", "Clone", "Set", "Sort", "Unique"})
+	e1 := g.pick(scalars)
+	e2 := g.pick(scalars)
+	for e2 == e1 {
+		e2 = g.pick(scalars)
+	}
+	ch.startElem[idx] = e1
+	ch.fmapRes[fmt.Sprintf("%d/pair", idx)] = e2
+	for si, e := range []string{e1, e2} {
+		st := step{plugin: plugin, bind: "end"}
+		st.name = g.nameFor(plugin, slice(e).String(), fmt.Sprintf("C%dS%d", idx, si), false, false)
+		c.steps = append(c.steps, st)
+	}
+	g.feats["two-calls-of-one-plugin-on-one-line"] = true
+	return c
+}
+
 // a chain of one call, typed by the user, whose generation asks for a helper of the wanted plugin
 func (g *gen) requester(idx int, file, wanted string, ch *choice) chain {
 	rq := helperRequesters[wanted][g.r.Intn(len(helperRequesters[wanted]))]
@@ -574,6 +651,7 @@ func (g *gen) chain(idx int, file string, depth int, ch *choice, forceNamed bool
 		last := si == depth-1
 		var plugin string
 		misapplied := false
+		st0mis := false
 		if last && g.r.Intn(100) < 60 {
 			plugin = g.pick(consumers[cur.kind])
 		} else {
@@ -583,6 +661,7 @@ func (g *gen) chain(idx int, file string, depth int, ch *choice, forceNamed bool
 			// a plugin for maps on a slice / for slices on a map: Add accepts, Generate refuses
 			plugin = map[int]string{1: "Keys", 2: g.pick([]string{"Sort", "Unique", "Set"})}[cur.kind]
 			misapplied = true
+			st0mis = true
 			g.feats["misapplied-plugin"] = true
 		}
 		key := fmt.Sprintf("%d/%d", idx, si)
@@ -596,7 +675,7 @@ func (g *gen) chain(idx int, file string, depth int, ch *choice, forceNamed bool
 			}
 			next = cur
 		}
-		st := step{plugin: plugin}
+		st := step{plugin: plugin, mis: st0mis}
 		// the signature the name stands for, under the new version's types
 		sig := cur.String()
 		switch plugin {
@@ -700,9 +779,17 @@ func (g *gen) retype(sh shape, ch choice) choice {
 			}
 		}
 	}
-	changed := false
+	changed := true
+	for _, c := range sh.chains {
+		if c.start != "pair" {
+			changed = false
+		}
+	}
 	for !changed {
 		for _, c := range sh.chains {
+			if c.start == "pair" {
+				continue // the two calls of a pair keep their two types
+			}
 			if g.r.Intn(100) < 50 {
 				n.startElem[c.idx] = other(n.startElem[c.idx])
 				changed = true
@@ -758,7 +845,7 @@ func (g *gen) scenario(id int) scenario {
 	g.feats = map[string]bool{}
 	g.wanted = nil
 	kinds := []string{"absent", "absent", "same", "same", "retyped", "retyped", "retyped", "retyped", "retyped", "retyped",
-		"renamed", "extra", "extra", "missing", "missing", "retyped-dropped", "retyped-dropped", "same-dropped", "emptied"}
+		"renamed", "extra", "extra", "missing", "missing", "retyped-dropped", "retyped-dropped", "same-dropped", "emptied", "hand-written-added", "hand-written-added"}
 	kind := g.pick(kinds)
 	files := []string{"a.go"}
 	if g.r.Intn(100) < 30 {
@@ -780,9 +867,47 @@ func (g *gen) scenario(id int) scenario {
 		}
 		sh.chains = append(sh.chains, g.chain(i, files[g.r.Intn(len(files))], depth, &ch, kind == "renamed" && i == 0))
 	}
+	if g.r.Intn(100) < 18 {
+		sh.chains = append(sh.chains, g.pair(len(sh.chains), files[g.r.Intn(len(files))], &ch))
+	}
 	for _, w := range g.wanted {
 		if g.r.Intn(100) < 70 {
 			sh.chains = append(sh.chains, g.requester(len(sh.chains), files[g.r.Intn(len(files))], w, &ch))
+		}
+	}
+	if kind == "hand-written-added" {
+		// the old sources let goderive generate a function that the new sources declare by hand, under the same name
+		count := map[string]int{}
+		for _, c := range sh.chains {
+			for _, st := range c.steps {
+				count[st.name]++
+			}
+		}
+		var cand []string
+		for _, c := range sh.chains {
+			if c.start == "pair" {
+				continue
+			}
+			for _, st := range c.steps {
+				if count[st.name] == 1 && !st.mis {
+					cand = append(cand, st.name)
+				}
+			}
+		}
+		if len(cand) == 0 {
+			kind = "same"
+		} else {
+			sh.hand = cand[g.r.Intn(len(cand))]
+			sh.handFile = g.pick([]string{"a.go", "main.go"})
+			if sh.handFile == "main.go" {
+				fs := append([]string{}, sh.files...)
+				fs = append(fs, "main.go")
+				sort.Strings(fs)
+				sh.files = fs
+				g.feats["hand-written-after-derived-file"] = true
+			} else {
+				g.feats["hand-written-before-derived-file"] = true
+			}
 		}
 	}
 	sc := scenario{ID: fmt.Sprintf("s%d", id), OldKind: kind, Depth: depthOf(sh)}
@@ -795,6 +920,11 @@ func (g *gen) scenario(id int) scenario {
 		sc.New = instantiate(shape{files: files}, ch)
 		sc.Depth = 0
 	case "absent":
+	case "hand-written-added":
+		osh := sh
+		osh.hand = ""
+		o := instantiate(osh, ch)
+		sc.Old = &o
 	case "same", "same-dropped":
 		o := instantiate(sh, ch)
 		sc.Old = &o
@@ -816,6 +946,25 @@ func (g *gen) scenario(id int) scenario {
 		sc.Old = &o
 	case "missing":
 		osh := shape{files: files}
+		pairAt := -1
+		for i, c := range sh.chains {
+			if c.start == "pair" {
+				pairAt = i
+			}
+		}
+		if pairAt >= 0 && g.r.Intn(100) < 60 {
+			// the old sources had only the first of the two calls that share a line
+			for i, c := range sh.chains {
+				if i == pairAt {
+					c.steps = append([]step{}, c.steps[:1]...)
+				}
+				osh.chains = append(osh.chains, c)
+			}
+			g.feats["second-call-added-on-the-line"] = true
+			o := instantiate(osh, ch)
+			sc.Old = &o
+			break
+		}
 		drop := g.r.Intn(len(sh.chains))
 		for i, c := range sh.chains {
 			if i != drop || len(sh.chains) == 1 {
